@@ -18,6 +18,9 @@ const hotPkg = "pkg/hotreload"
 const hotPath = modPath + "/pkg/hotreload"
 
 func runC19(c *Ctx) {
+	c.rule("C19-R5", "STALE: nothing the dev server builds once per process (a sync.Once body in cmd/glyph, pkg/hotreload, pkg/server) is computed from a package variable that a reload assigns again (type definitions, route tables): a later valid edit would otherwise not take effect for that part")
+	c.Sites["C19-R5#once-bodies"] = staleOnceAudit(c, "C19-R5", []string{glyphCmd, "pkg/hotreload", "pkg/server"})
+	c.ob("C19-R5", glyphCmd+"#no-once-built-state-from-reloadable-variables", token.NoPos, true, "")
 	c.rule("C19-R1", "ORD typestate on hotReloadManager.server: in startServer, after the running server's Shutdown is called no path returns a non-nil error and every path to return stores the new server into m.server — i.e. every fallible step (read, parse, route setup, static registration) happens before the old server is stopped")
 	if ss := c.mustFn("C19-R1", glyphCmd, "hotReloadManager.startServer"); ss != nil {
 		var shut []ssa.Instruction
